@@ -759,3 +759,299 @@ Proof.
   rewrite split_on_nochar by (apply digits_nodash, zpad_digits; lia).
   rewrite parse_nat_show, !parse_nat_zpad by lia. reflexivity.
 Qed.
+
+(* decimals *)
+Lemma parse_nat_digits (s : str) : s <> [] -> forallb is_digit s = true -> parse_nat s = Some (pnat s).
+Proof. intros Hne Hd. unfold parse_nat. destruct s; [congruence|]. rewrite Hd. reflexivity. Qed.
+
+Lemma span_digits_app (ip rest : str) : forallb is_digit ip = true ->
+  (rest = [] \/ exists c t, rest = c :: t /\ is_digit c = false) -> span_digits (ip ++ rest) = (ip, rest).
+Proof.
+  intros Hd Hr. induction ip as [|x ip IH].
+  - cbn [app]. destruct Hr as [->|[c [t [-> Hc]]]]; [reflexivity|]. cbn [span_digits]. rewrite Hc. reflexivity.
+  - cbn [forallb] in Hd. apply andb_prop in Hd as [H1 H2]. cbn [app span_digits]. rewrite H1, (IH H2). reflexivity.
+Qed.
+
+Definition parse_unsigned (neg : bool) (s1 : str) : option (dec * nat) :=
+  let '(ip, s2) := span_digits s1 in
+  match ip with
+  | [] => None
+  | _ =>
+    let intlen := ((if neg then 1 else 0) + length ip)%nat in
+    match s2 with
+    | [] => option_map (fun c => (mkdec neg c 0, intlen)) (parse_nat ip)
+    | 46 :: fr =>
+        match fr with
+        | [] => None
+        | _ => if forallb is_digit fr
+               then option_map (fun c => (mkdec neg c (- Z.of_nat (length fr)), intlen)) (parse_nat (ip ++ fr))
+               else None
+        end
+    | _ => None
+    end
+  end.
+Lemma parse_num_neg t : parse_num (45 :: t) = parse_unsigned true t.
+Proof. reflexivity. Qed.
+Lemma parse_num_pos c t : is_digit c = true -> parse_num (c :: t) = parse_unsigned false (c :: t).
+Proof.
+  intros H. unfold parse_num, parse_unsigned.
+  destruct c as [|p|p]; try reflexivity. do 6 (destruct p as [p|p|]; try reflexivity). discriminate.
+Qed.
+
+Lemma parse_unsigned_int neg (ip : str) : ip <> [] -> forallb is_digit ip = true ->
+  parse_unsigned neg ip = Some (mkdec neg (pnat ip) 0, ((if neg then 1 else 0) + length ip)%nat).
+Proof.
+  intros Hne Hd. unfold parse_unsigned. rewrite <- (app_nil_r ip) at 1. rewrite span_digits_app by auto.
+  destruct ip; [congruence|]. rewrite parse_nat_digits by (auto; discriminate). reflexivity.
+Qed.
+Lemma parse_unsigned_frac neg (ip fr : str) : ip <> [] -> fr <> [] -> forallb is_digit ip = true -> forallb is_digit fr = true ->
+  parse_unsigned neg (ip ++ 46 :: fr)
+  = Some (mkdec neg (pnat (ip ++ fr)) (- Z.of_nat (length fr)), ((if neg then 1 else 0) + length ip)%nat).
+Proof.
+  intros Hi Hf Hdi Hdf. unfold parse_unsigned. rewrite span_digits_app by (auto; right; eexists _, _; split; reflexivity).
+  destruct ip as [|x ip]; [congruence|]. destruct fr as [|y fr]; [congruence|]. rewrite Hdf.
+  rewrite parse_nat_digits; [reflexivity|discriminate|]. rewrite forallb_app, Hdi, Hdf. reflexivity.
+Qed.
+
+Lemma pnat_firstn_skipn n (s : str) : pnat (firstn n s ++ skipn n s) = pnat s.
+Proof. rewrite firstn_skipn. reflexivity. Qed.
+
+Theorem parse_num_dec_str d : 0 <= dcoef d -> dec_positional d = true ->
+  parse_num (dec_str d) = Some (d, Z.to_nat (dec_intw d)).
+Proof.
+  intros Hc Hp. pose proof (dec_nd_pos d) as Hnd.
+  pose proof (show_nat_digits (dcoef d) Hc) as Hdig. pose proof (show_nat_pnat (dcoef d) Hc) as Hpn.
+  pose proof (show_nat_nonempty (dcoef d)) as Hne.
+  assert (Hbody : forall neg,
+    parse_unsigned neg
+      (if dec_leftdigits d <=? 0 then [48; 46] ++ zeros (- dec_leftdigits d) ++ dec_digits d
+       else if dec_nd d <=? dec_leftdigits d then dec_digits d ++ zeros (dec_leftdigits d - dec_nd d)
+       else firstn (Z.to_nat (dec_leftdigits d)) (dec_digits d) ++ [46] ++ skipn (Z.to_nat (dec_leftdigits d)) (dec_digits d))
+    = Some (mkdec neg (dcoef d) (dexp d), Z.to_nat (Z.max 1 (dec_nd d + dexp d) + (if neg then 1 else 0)))).
+  { intros neg. unfold dec_positional, dec_leftdigits in *. apply andb_prop in Hp as [H1 H2].
+    apply Z.leb_le in H1. apply Z.ltb_lt in H2. unfold dec_nd, dec_digits in *.
+    destruct (dexp d + Z.of_nat (length (show_nat (dcoef d))) <=? 0) eqn:E1.
+    - apply Z.leb_le in E1.
+      set (fr := zeros (- (dexp d + Z.of_nat (length (show_nat (dcoef d))))) ++ show_nat (dcoef d)).
+      assert (Hfr1 : fr <> []) by (unfold fr; intros E; apply app_eq_nil in E as [_ E]; congruence).
+      assert (Hfr2 : forallb is_digit fr = true).
+      { unfold fr. rewrite forallb_app, Hdig, andb_true_r. apply (allc_repeat is_digit). reflexivity. }
+      pose proof (parse_unsigned_frac neg [48] fr ltac:(discriminate) Hfr1 eq_refl Hfr2) as HF.
+      change ([48; 46] ++ fr) with ([48] ++ 46 :: fr). rewrite HF. f_equal. f_equal.
+      + f_equal; [|unfold fr; rewrite app_length, zeros_length; lia].
+        change ([48] ++ fr) with (repeat 48 1 ++ fr). rewrite pnat_zeros. unfold fr, zeros. rewrite pnat_zeros. exact Hpn.
+      + destruct neg; cbn [length]; lia.
+    - apply Z.leb_gt in E1.
+      destruct (Z.of_nat (length (show_nat (dcoef d))) <=? dexp d + Z.of_nat (length (show_nat (dcoef d)))) eqn:E2.
+      + apply Z.leb_le in E2. assert (dexp d = 0) by lia.
+        replace (dexp d + Z.of_nat (length (show_nat (dcoef d))) - Z.of_nat (length (show_nat (dcoef d)))) with 0 by lia.
+        change (zeros 0) with (@nil Z). rewrite app_nil_r. rewrite parse_unsigned_int by assumption.
+        f_equal. f_equal; [f_equal; lia|]. destruct neg; lia.
+      + apply Z.leb_gt in E2. change ([46] ++ ?x) with (46 :: x).
+        set (L := Z.to_nat (dexp d + Z.of_nat (length (show_nat (dcoef d))))).
+        assert (HL1 : (1 <= L)%nat) by (unfold L; lia).
+        assert (HL2 : (L < length (show_nat (dcoef d)))%nat) by (unfold L; lia).
+        rewrite parse_unsigned_frac.
+        * rewrite pnat_firstn_skipn, skipn_length, firstn_length. f_equal. f_equal; [f_equal; lia|]. unfold L. destruct neg; lia.
+        * intros E. apply (f_equal (@length Z)) in E. rewrite firstn_length in E. simpl in E. lia.
+        * intros E. apply (f_equal (@length Z)) in E. rewrite skipn_length in E. simpl in E. lia.
+        * apply (allc_firstn is_digit). exact Hdig.
+        * apply (allc_skipn is_digit). exact Hdig. }
+  unfold dec_str. rewrite Hp. cbv zeta. rewrite Z.eqb_refl, app_nil_r.
+  destruct d as [neg coef ex]. cbn [dneg dcoef dexp] in *. unfold dec_intw. cbn [dneg dexp].
+  destruct neg.
+  - cbn [app]. rewrite parse_num_neg. apply Hbody.
+  - cbn [app]. specialize (Hbody false).
+    assert (Hhead : forall s r, parse_unsigned false s = Some r -> parse_num s = Some r).
+    { intros s r H. destruct s as [|c t]; [discriminate H|].
+      destruct (is_digit c) eqn:Ec; [rewrite parse_num_pos by exact Ec; exact H|].
+      unfold parse_unsigned in H. cbn [span_digits] in H. rewrite Ec in H. discriminate H. }
+    apply Hhead. exact Hbody.
+Qed.
+
+Theorem readback_decimal ds d : In d ds -> 0 <= dcoef d -> dec_positional d = true ->
+  parse_num (strip (dec_format (dec_state ds) d)) = Some (d, Z.to_nat (dec_intw d)).
+Proof.
+  intros Hin Hc Hp.
+  assert (E0 : (0 <? dexp d) = false).
+  { unfold dec_positional in Hp. apply andb_prop in Hp as [H _]. apply Z.leb_le in H. apply Z.ltb_ge. lia. }
+  destruct (dec_state ds) as [ni nf]. unfold dec_format. rewrite E0. unfold ljust.
+  rewrite strip_padded by (apply numc_allnosp, dec_str_numc; exact Hc).
+  apply parse_num_dec_str; assumption.
+Qed.
+
+(* ------------------------------------------------------------------ CSV: reading back what csv.writer wrote *)
+Lemma csv_special_false c : csv_special c = false -> c <> 44 /\ c <> 34 /\ c <> 10 /\ c <> 13.
+Proof. unfold csv_special. intros H. repeat (apply orb_false_elim in H as [H ?]). repeat split; intros ->; discriminate. Qed.
+
+Lemma not34_match {T} c (t : str) (a : str -> T) (b d : T) : c <> 34 ->
+  match c, t with | 34, 34 :: t' => a t' | 34, _ => b | _, _ => d end = d.
+Proof.
+  intros Hc. destruct c as [|p|p]; try reflexivity.
+  do 6 (destruct p as [p|p|]; try reflexivity). congruence.
+Qed.
+
+Lemma csv_parse_plain (f : str) : existsb csv_special f = false -> forall rest acc rec,
+  csv_parse (f ++ rest) false acc rec = csv_parse rest false (rev f ++ acc) rec.
+Proof.
+  induction f as [|c f IH]; intros H rest acc rec; [reflexivity|].
+  cbn [existsb] in H. apply orb_false_elim in H as [H1 H2].
+  destruct (csv_special_false c H1) as [A [B [C D]]].
+  cbn [app csv_parse].
+  apply Z.eqb_neq in A, B, C, D. rewrite A, B, D, C. rewrite (IH H2). cbn [rev]. rewrite <- app_assoc. reflexivity.
+Qed.
+
+Definition csv_esc (s : str) : str := flat_map (fun c => if c =? 34 then [34; 34] else [c]) s.
+
+Lemma csv_parse_quoted (f : str) : forall d rest acc rec, d <> 34 ->
+  csv_parse (csv_esc f ++ 34 :: d :: rest) true acc rec = csv_parse (d :: rest) false (rev f ++ acc) rec.
+Proof.
+  induction f as [|c f IH]; intros d rest acc rec Hd.
+  - cbn [csv_esc flat_map app rev]. cbn [csv_parse].
+    destruct d as [|p|p]; try reflexivity. do 6 (destruct p as [p|p|]; try reflexivity). congruence.
+  - cbn [csv_esc flat_map]. fold (csv_esc f). destruct (c =? 34) eqn:E.
+    + apply Z.eqb_eq in E. subst c. cbn [app]. cbn [csv_parse].
+      rewrite (IH d rest (34 :: acc) rec Hd). cbn [rev]. rewrite <- app_assoc. reflexivity.
+    + apply Z.eqb_neq in E. cbn [app].
+      remember (csv_parse (d :: rest) false (rev (c :: f) ++ acc) rec) as R eqn:ER. cbn [csv_parse].
+      rewrite (not34_match c _ (fun t' => csv_parse t' true (34 :: acc) rec)) by exact E.
+      rewrite (IH d rest (c :: acc) rec Hd). subst R. cbn [rev]. rewrite <- app_assoc. reflexivity.
+Qed.
+
+(* one field followed by a delimiter d (',' or '\r') *)
+Lemma csv_parse_field (f : str) d rest rec : d = 44 \/ d = 13 ->
+  csv_parse (csv_field f ++ d :: rest) false [] rec = csv_parse (d :: rest) false (rev f) rec.
+Proof.
+  intros Hd. unfold csv_field. destruct (existsb csv_special f) eqn:E.
+  - rewrite <- !app_assoc. cbn [app].
+    remember (csv_parse (d :: rest) false (rev f) rec) as R eqn:ER.
+    cbn [csv_parse Z.eqb Pos.eqb].
+    fold (csv_esc f). rewrite csv_parse_quoted by (destruct Hd; subst; discriminate). rewrite app_nil_r. subst R. reflexivity.
+  - rewrite csv_parse_plain by exact E. rewrite app_nil_r. reflexivity.
+Qed.
+
+Lemma csv_parse_fields (fs : list str) : fs <> [] -> forall rest rec,
+  csv_parse (join [44] (map csv_field fs) ++ 13 :: 10 :: rest) false [] rec
+  = (rev rec ++ fs) :: csv_parse rest false [] [].
+Proof.
+  induction fs as [|f fs IH]; intros Hne rest rec; [congruence|].
+  destruct fs as [|g fs'].
+  - cbn [map join]. rewrite csv_parse_field by auto.
+    cbn [csv_parse]. cbn [Z.eqb Pos.eqb]. cbn [csv_parse]. cbn [Z.eqb Pos.eqb].
+    rewrite rev_involutive. cbn [rev]. reflexivity.
+  - change (join [44] (map csv_field (f :: g :: fs'))) with (csv_field f ++ [44] ++ join [44] (map csv_field (g :: fs'))).
+    rewrite <- !app_assoc. cbn [app]. rewrite csv_parse_field by auto.
+    cbn [csv_parse]. cbn [Z.eqb Pos.eqb]. rewrite rev_involutive.
+    rewrite IH by discriminate. cbn [rev]. rewrite <- app_assoc. reflexivity.
+Qed.
+
+Lemma csv_parse_record (fs : list str) rest : fs <> [] ->
+  csv_parse (csv_record fs ++ rest) false [] [] = fs :: csv_parse rest false [] [].
+Proof.
+  intros Hne.
+  assert (G : csv_parse ((join [44] (map csv_field fs) ++ [13; 10]) ++ rest) false [] [] = fs :: csv_parse rest false [] []).
+  { rewrite <- app_assoc. cbn [app]. rewrite csv_parse_fields by exact Hne. reflexivity. }
+  unfold csv_record. destruct fs as [|f fs']; [congruence|]. destruct f; [destruct fs'|]; try exact G.
+Qed.
+
+Theorem csv_read_records (recs : list (list str)) : Forall (fun r => r <> []) recs ->
+  csv_read (flat_map csv_record recs) = recs.
+Proof.
+  unfold csv_read. induction 1 as [|r recs Hr HF IH]; [reflexivity|].
+  cbn [flat_map]. rewrite csv_parse_record by exact Hr. rewrite IH. reflexivity.
+Qed.
+
+(* ------------------------------------------------------------------ strip of a padded slot, any cell text *)
+Lemma lead_spaces_cons c (t : str) : lead_spaces (c :: t) = if c =? 32 then S (lead_spaces t) else 0%nat.
+Proof. destruct c as [|p|p]; try reflexivity. do 6 (destruct p as [p|p|]; try reflexivity). Qed.
+Lemma lead_spaces_le (f : str) : (lead_spaces f <= length f)%nat.
+Proof. induction f as [|c f IH]; [simpl; lia|]. rewrite lead_spaces_cons. destruct (c =? 32); simpl; lia. Qed.
+Lemma lead_spaces_app_lt (f t : str) : (lead_spaces f < length f)%nat -> lead_spaces (f ++ t) = lead_spaces f.
+Proof.
+  induction f as [|c f IH]; intros H; [simpl in H; lia|]. cbn [app]. rewrite !lead_spaces_cons in *.
+  destruct (c =? 32); [|reflexivity]. f_equal. apply IH. simpl in H. lia.
+Qed.
+Lemma lead_spaces_all (f : str) : lead_spaces f = length f -> f = spaces (length f).
+Proof.
+  induction f as [|c f IH]; intros H; [reflexivity|]. rewrite lead_spaces_cons in H.
+  destruct (c =? 32) eqn:E; [|simpl in H; lia]. apply Z.eqb_eq in E. subst c. simpl in H. injection H as H.
+  simpl. unfold spaces in *. simpl. f_equal. apply IH. exact H.
+Qed.
+Lemma lstrip_spaces_app n (X : str) : lstrip (spaces n ++ X) = lstrip X.
+Proof.
+  unfold lstrip. rewrite lead_spaces_spaces, skipn_app, spaces_length.
+  rewrite skipn_all2 by (rewrite spaces_length; lia). cbn [app]. f_equal. lia.
+Qed.
+Lemma rstrip_app_spaces (Y : str) n : rstrip (Y ++ spaces n) = rstrip Y.
+Proof. unfold rstrip. rewrite rev_app_distr, rev_spaces, lstrip_spaces_app. reflexivity. Qed.
+
+Theorem strip_pad_any l r (f : str) : strip (spaces l ++ f ++ spaces r) = strip f.
+Proof.
+  unfold strip. rewrite lstrip_spaces_app.
+  pose proof (lead_spaces_le f) as Hle.
+  destruct (Nat.eq_dec (lead_spaces f) (length f)) as [E|E].
+  - rewrite (lead_spaces_all f E). rewrite spaces_app, !lstrip_spaces_all. reflexivity.
+  - assert (Hlt : (lead_spaces f < length f)%nat) by lia.
+    assert (EL : lstrip (f ++ spaces r) = lstrip f ++ spaces r).
+    { unfold lstrip. rewrite (lead_spaces_app_lt f (spaces r) Hlt), skipn_app.
+      replace (lead_spaces f - length f)%nat with 0%nat by lia. reflexivity. }
+    rewrite EL. apply rstrip_app_spaces.
+Qed.
+
+Lemma forallb2_refl_str (l : list str) : forallb2 str_eqb l l = true.
+Proof. induction l; simpl; auto. rewrite str_eqb_refl. exact IHl. Qed.
+
+Lemma strip_fields_ok slots cells :
+  Forall2 (fun (slot c : str) => exists l r, slot = spaces l ++ c ++ spaces r) slots cells ->
+  forallb2 (fun f s : str => str_eqb (strip f) (strip s)) cells slots = true.
+Proof.
+  induction 1 as [|s c slots cells [l [r E]] H IH]; [reflexivity|]. cbn [forallb2].
+  rewrite E, strip_pad_any, str_eqb_refl. exact IH.
+Qed.
+
+Definition csv_text_opts (o : opts) : opts := mkopts false false false (o_expand o) (o_narrow o) (o_null o) [44].
+
+Lemma map2_map_r {A B C} (f : A -> B -> C) (g : A -> B) l : map2 f l (map g l) = map (fun x => f x (g x)) l.
+Proof. induction l; simpl; auto. f_equal. exact IHl. Qed.
+
+Theorem check_csv_model quant numfmt o desc rows :
+  (1 <= length desc)%nat -> wf_table desc rows -> exact_desc desc -> nl_free (csv_text_opts o) desc rows ->
+  check_csv_code o desc rows (unlines (text_lines quant numfmt (csv_text_opts o) desc rows))
+                 (flat_map csv_record (csv_records quant numfmt o desc rows)) = 0.
+Proof.
+  intros Hn Hwf He Hnf. unfold check_csv_code. cbv zeta. fold (csv_text_opts o).
+  set (o' := csv_text_opts o) in *.
+  assert (Hh : hyp_table quant numfmt o' desc rows).
+  { intros j Hj. specialize (He j Hj). destruct (snd (nth j desc d0)); try discriminate; exact I. }
+  assert (Hh2 : hyp_table quant numfmt (csv_opts o) desc rows).
+  { intros j Hj. specialize (He j Hj). destruct (snd (nth j desc d0)); try discriminate; exact I. }
+  pose proof (model_table_fits quant numfmt o' desc rows Hwf Hh) as Hfit.
+  set (L := text_lines quant numfmt o' desc rows).
+  rewrite <- (text_lines_length quant numfmt o' desc rows He). fold L.
+  assert (HLn : (1 <= length L)%nat) by (unfold L, text_lines; rewrite !app_length; simpl; lia).
+  rewrite (split_rect_unlines (linew o' (table_widths quant numfmt o' desc rows)) L HLn
+             (text_lines_rect quant numfmt o' desc rows Hn Hfit) (text_lines_nonl quant numfmt o' desc rows Hwf He Hnf)).
+  set (ws := table_widths quant numfmt o' desc rows) in *.
+  set (sts := col_states quant o' desc rows).
+  set (aligns := map (fun d : str * dtype => align_of (snd d)) desc).
+  assert (Hlw : length ws = length desc) by apply table_widths_length.
+  assert (Hne : ws <> []) by (intros E; rewrite E in Hlw; simpl in Hlw; lia).
+  assert (Hge : Forall (fun w => (1 <= w)%nat) ws).
+  { unfold ws, table_widths. apply Forall_map2. intros. unfold col_width. lia. }
+  pose proof (widths_of_h_line o' ws Hne Hge (or_introl eq_refl)) as HW.
+  (* the records *)
+  assert (Hrecs : csv_records quant numfmt o desc rows = map fst desc :: render_rows numfmt o' sts rows).
+  { unfold csv_records, sts. f_equal; try (apply render_rows_ext; reflexivity). }
+  assert (Hlen : forall rec, In rec (csv_records quant numfmt o desc rows) -> length rec = length desc).
+  { intros rec Hr. eapply csv_shape; eassumption. }
+  rewrite csv_read_records.
+  2:{ apply Forall_forall. intros rec Hr E. apply Hlen in Hr. rewrite E in Hr. simpl in Hr. lia. }
+  rewrite Hrecs. unfold L, text_lines. fold ws sts aligns. change (o_boxed o') with false. cbv iota.
+  cbn [app nth skipn]. rewrite app_nil_r, HW, map_length, Nat.eqb_refl, forallb2_refl_str. cbn [negb].
+  assert (Hall : forallb (fun r : list str => (length r =? length desc)%nat) (render_rows numfmt o' sts rows) = true).
+  { apply forallb_forall. intros rec Hr. apply Nat.eqb_eq. apply Hlen. rewrite Hrecs. right. exact Hr. }
+  rewrite Hall. cbn [negb]. rewrite map2_map_r.
+  apply first_code_zero. intros x Hx. apply in_map_iff in Hx as [cells [<- Hc]].
+  destruct (rows_slots quant numfmt o' desc rows cells Hwf Hh Hc) as [S1 [_ S3]].
+  fold ws aligns in S1, S3. rewrite S1. rewrite (strip_fields_ok _ _ S3). reflexivity.
+Qed.
